@@ -16,6 +16,8 @@ import (
 	"sort"
 	"strings"
 	"time"
+
+	"github.com/pojntfx/panrpc/go/pkg/rpc"
 )
 
 // ownCtx is an application-defined context.Context (legal): contexts derived from it need a goroutine of
@@ -215,5 +217,69 @@ func FamLifecycle(seed int64, rounds int) SysRecord {
 		rec.Notes = append(rec.Notes, fmt.Sprintf("CONTEXT-CHILDREN-REMAIN %d contexts derived inside panrpc still hang off the application's context after %d link lifecycles (%d calls on ended links)", n, rounds, late))
 	}
 	rec.Calls = append(rec.Calls, SysCall{Tag: 80000, From: "A", Method: "Lifecycles", Ret: fmt.Sprint(rounds), Arg: fmt.Sprint(late), Extra: fmt.Sprint(ctxChildren(app)), Done: true})
+	return rec
+}
+
+// FamEarlyCancel — a link whose context ends very early: it is already cancelled when Link is called
+// (variant 0), or it is cancelled from inside the link's own connect notification (variant 1: e.g. an
+// application enforcing a connection limit). Whatever was announced as connected must be announced as
+// disconnected, Link returns, and nothing stays enumerated.
+func FamEarlyCancel(seed int64, variant int) SysRecord {
+	c := jsonRawCodec()
+	what := map[int]string{0: "link context already cancelled when Link is called", 1: "link context cancelled from inside the link's connect notification"}[variant%2]
+	rec := SysRecord{Family: "earlycancel", Config: c.Name + " " + what, Seed: seed}
+	w := newWorld()
+	a, b := NewSysNode[json.RawMessage](w, "A"), NewSysNode[json.RawMessage](w, "B")
+	parent, pcancel := context.WithCancel(context.Background())
+	defer pcancel()
+	ready := make(chan struct{})
+	var l *SysLink[json.RawMessage]
+	if variant%2 == 0 {
+		pcancel()
+	} else {
+		a.SharedHooks = &rpc.LinkHooks{
+			OnClientConnect: func(id string) {
+				w.log(SysEvent{Node: "A", Kind: "hook", Method: "link-connect", Remote: id})
+				<-ready
+				l.CancelA()
+			},
+			OnClientDisconnect: func(id string) { w.log(SysEvent{Node: "A", Kind: "hook", Method: "link-disconnect", Remote: id}) },
+		}
+	}
+	l = ConnectCtx(parent, w, a, b, c, seed%2 == 1, -1, seed)
+	close(ready)
+	select {
+	case <-l.ErrA:
+	case <-time.After(3 * time.Second):
+		rec.Notes = append(rec.Notes, "LINK-DID-NOT-RETURN although its context is cancelled")
+	}
+	// the peer notices (its reads fail) and goes away too
+	l.CloseTransport(io.EOF)
+	l.CancelB()
+	select {
+	case <-l.ErrB:
+	case <-time.After(3 * time.Second):
+		rec.Notes = append(rec.Notes, "LINK-DID-NOT-RETURN on the peer's side")
+	}
+	settled := waitUntil(func() bool {
+		n := map[string]int{}
+		for _, e := range w.Events() {
+			if e.Kind == "hook" && e.Node == "A" {
+				n[e.Method]++
+			}
+		}
+		return n["connect"] == n["disconnect"] && n["link-connect"] == n["link-disconnect"] && len(a.Remotes()) == 0
+	}, 3*time.Second)
+	if !settled {
+		n := map[string]int{}
+		for _, e := range w.Events() {
+			if e.Kind == "hook" && e.Node == "A" {
+				n[e.Method]++
+			}
+		}
+		rec.Notes = append(rec.Notes, fmt.Sprintf("EARLY-CANCEL 3 s after Link returned and the transport was closed: %d connect / %d disconnect notifications (registry-wide), %d / %d (per link), %d remote(s) still enumerated",
+			n["connect"], n["disconnect"], n["link-connect"], n["link-disconnect"], len(a.Remotes())))
+	}
+	rec.Events = w.Events()
 	return rec
 }
